@@ -707,9 +707,18 @@ def apply(func, args, kwargs=None):
         if len(flat) == 1:
             return flat[0]
         return Rat.of_atom(atom(func, tuple(flat)))
+    if func == "callobj" and x is not None and not extra and all(isinstance(a, (Rat, tuple)) for a in args):
+        # calling a conditional callable is the conditional of the calls: (f if c else g)(x) = f(x) if c else g(x)
+        xc = x.as_atom("ifexp")
+        if xc is not None and len(xc.args) == 3 and all(isinstance(z, Rat) for z in xc.args):
+            return apply("ifexp", [xc.args[0], apply("callobj", [xc.args[1]] + list(args[1:])), apply("callobj", [xc.args[2]] + list(args[1:]))])
     if func == "callobj" and x is not None and len(args) == 3 and not extra:
         op = {"$operator.le": "cmp_le", "$operator.lt": "cmp_lt", "$operator.ge": "cmp_ge", "$operator.gt": "cmp_gt",
-              "$operator.eq": "cmp_eq", "$operator.ne": "cmp_ne"}.get(x.key())
+              "$operator.eq": "cmp_eq", "$operator.ne": "cmp_ne",
+              "$np.less_equal": "cmp_le", "$np.less": "cmp_lt", "$np.greater_equal": "cmp_ge", "$np.greater": "cmp_gt",
+              "$np.equal": "cmp_eq", "$np.not_equal": "cmp_ne",
+              "$numpy.less_equal": "cmp_le", "$numpy.less": "cmp_lt", "$numpy.greater_equal": "cmp_ge", "$numpy.greater": "cmp_gt",
+              "$numpy.equal": "cmp_eq", "$numpy.not_equal": "cmp_ne"}.get(x.key())
         if op is not None and isinstance(args[1], Rat) and isinstance(args[2], Rat):
             return apply(op, [args[1], args[2]])
     if func.startswith("elem") and (func == "elem" or func[4:5] == "#") and len(args) == 1 and x is not None and not extra:
